@@ -112,8 +112,10 @@ class Ctx:
 
     # -------------------------------------------------------------- finishing
     def check_floors(self) -> None:
+        reported = {fd.rule for fd in self.findings}
         for rs in self.rules.values():
-            if rs.instances < rs.floor:
+            # a rule that reports a construct has seen its code; its later obligations may not have been evaluated
+            if rs.instances < rs.floor and rs.rule not in reported:
                 raise AnalysisError(
                     f"rule {rs.rule} matched {rs.instances} instance(s), below its floor {rs.floor}: "
                     f"the rule no longer sees the code it was written for")
